@@ -124,8 +124,9 @@ class FakeWriter:
 class Gateway:
     """conns[i] describes the i-th connection attempt: {"refuse": bool, "delay": virtual seconds the attempt is
     pending, "drain": mode of the new writer}. Attempts beyond the list are accepted with delay 0."""
-    def __init__(self, tr, conns):
+    def __init__(self, tr, conns, client="ebyte", exc_rot=0):
         self.tr, self.conns = tr, list(conns)
+        self.client, self.exc_rot, self.nrefused = client, int(exc_rot), 0
         self.attempt_times = []
         self.refuse_next = 0
         self.writers = []
@@ -152,7 +153,7 @@ class Gateway:
             refuse = True
         await _sleep(float(sp.get("delay", 0.0)))       # always a real suspension (sleep(0) yields once)
         if refuse:
-            raise ConnectionRefusedError("fake: connection refused")
+            raise self._failure()
         r = asyncio.StreamReader()
         w = FakeWriter(self, len(self.writers), r)
         w.mode = sp.get("drain", "ok")
@@ -160,6 +161,25 @@ class Gateway:
         self.readers.append(r)
         self.tr.ev("opened", w.wid)
         return r, w
+
+    def _failure(self):
+        """a failing connection attempt raises one of the exception classes a real open_connection /
+        open_serial_connection raises (rotating; `exc_rot` of the spec chooses where the rotation starts)"""
+        import socket
+        kinds = [lambda: ConnectionRefusedError(111, "fake: connection refused"),
+                 lambda: OSError(113, "fake: no route to host"),
+                 lambda: socket.gaierror(-2, "fake: name or service not known"),
+                 lambda: TimeoutError("fake: connection attempt timed out"),
+                 lambda: RuntimeError("fake: unexpected failure inside the transport"),
+                 lambda: ConnectionResetError(104, "fake: reset during the handshake"),
+                 lambda: OSError(101, "fake: network is unreachable")]
+        if self.client == "waveshare":
+            import serial
+            kinds.insert(1, lambda: serial.SerialException("fake: could not open port /dev/fake: No such file or directory"))
+        e = kinds[(self.exc_rot + self.nrefused) % len(kinds)]()
+        self.nrefused += 1
+        self.tr.ev("refused", type(e).__name__)
+        return e
 
     async def open_connection(self, host=None, port=None, **kw):
         return await self._open()
@@ -454,6 +474,61 @@ def frame(client: str, i: int) -> bytes:
     return b
 
 
+# CAN payloads every PGN decoder rejects by RAISING (value above the maximum, unsupported ISO / mixed PGN, truncated
+# fast-packet frame): the wire frame around them is perfectly valid (marker, length, checksum, syntax)
+BAD_PAYLOADS = [(126992, 3, bytes([1, 0xF0, 0x20, 0x4E, 0xFE, 0xFF, 0xFF, 0xFF])), (65240, 6, bytes(8)), (126976, 6, bytes(8)),
+                (127250, 2, bytes([1, 0xFE, 0xFF, 0xFF, 0x7F, 0xFF, 0x7F, 0xFD])), (129029, 3, bytes([0x00])), (129029, 3, b"")]
+_BAD_CACHE = {}
+
+
+def bad_frame(client: str, i: int) -> bytes:
+    """a well-framed but undecodable frame in the client's wire format (checked: the decoder raises on it)"""
+    key = (client, i % len(BAD_PAYLOADS))
+    if key in _BAD_CACHE:
+        return _BAD_CACHE[key]
+    from nmea2000.decoder import NMEA2000Decoder
+    from nmea2000.encoder import NMEA2000Encoder
+    from nmea2000.utils import calculate_canbus_checksum
+    src, dst = 0x21, 255
+
+    def build(pgn, prio, data):
+        hid = NMEA2000Encoder._build_header(pgn, src, dst, prio)
+        if client == "ebyte":
+            return bytes([0x80 | len(data)]) + hid.to_bytes(4, "big") + data.ljust(8, b"\0")
+        if client == "waveshare":
+            p = bytes([0xaa, 0x55, 1, 2, 1]) + hid.to_bytes(4, "little") + bytes([len(data)]) + data.ljust(8, b"\0") + b"\0"
+            return p + bytes([calculate_canbus_checksum(p)])
+        if client == "yd":
+            return (b"00:00:00.000 R " + hid.to_bytes(4, "big").hex().upper().encode() + b" " +
+                    " ".join(f"{x:02X}" for x in data).encode() + b"\r\n")
+        n = (src << 12) | (dst << 4) | prio
+        return f"A000001.000 {n:05X} {pgn:05X} {data.hex().upper()}\n".encode()
+
+    def raises(b):
+        d = NMEA2000Decoder()
+        try:
+            if client == "ebyte":
+                d.decode_tcp(b)
+            elif client == "waveshare":
+                d.decode_usb(bytearray(b))
+            elif client == "yd":
+                d.decode_yacht_devices_string(b.decode().strip())
+            else:
+                d.decode_actisense_string(b.decode().strip())
+        except Exception:  # noqa: BLE001
+            return True
+        return False
+    first = None
+    for j in range(len(BAD_PAYLOADS)):
+        b = build(*BAD_PAYLOADS[(i + j) % len(BAD_PAYLOADS)])
+        first = first or b
+        if raises(b):
+            _BAD_CACHE[key] = b
+            return b
+    _BAD_CACHE[key] = first        # nothing raises in this tree: still a valid frame of unusual content
+    return first
+
+
 def a_message():
     from nmea2000.decoder import NMEA2000Decoder
     return NMEA2000Decoder().decode_basic_string(
@@ -678,7 +753,7 @@ def run_session(spec: dict) -> dict:
     import logging
     logging.disable(logging.CRITICAL)
     tr = Tracer()
-    gw = Gateway(tr, spec.get("conns", []))
+    gw = Gateway(tr, spec.get("conns", []), spec["client"], spec.get("exc_rot", 0))
     undo = install(tr, gw)
     loop = VirtualLoop()
     tr.loop = loop
@@ -780,6 +855,9 @@ async def _session(spec, tr, gw, obs, loop):
             user_tasks.append(loop.create_task(client.send(msg)))
         elif name == "frames":
             data = b"".join(frame(cname, i) for i in range(int(op[1])))
+            tr.env("feed", cur_reader(), len(data), data)
+        elif name == "badframes":   # well-framed frames whose decoding raises
+            data = b"".join(bad_frame(cname, i) for i in range(int(op[1])))
             tr.env("feed", cur_reader(), len(data), data)
         elif name == "feed":
             data = bytes.fromhex(op[1])
@@ -996,7 +1074,8 @@ RECOVERY_TAIL = [["run", 12.0], ["frames", 1], ["run", 0.5]]     # C13: after ev
 FAULTS = {"eof": [["eof"]], "reset": [["reset"]], "writeerr": [["wmode", "fail"], ["send"]],
           "garbage_eof": [["feed", GARBAGE], ["eof"]], "refuse3_eof": [["refuse_next", 3], ["eof"]],
           "refuse7_reset": [["refuse_next", 7], ["reset"]], "drainerr": [["wmode", "suspfail"], ["send"]],
-          "sorry": [["feed", b"Sorry,Limited".hex()]]}
+          "sorry": [["feed", b"Sorry,Limited".hex()]],
+          "undecodable_eof": [["badframes", 4], ["frames", 1], ["badframes", 2], ["eof"]]}
 
 
 def spec(client, cb="ret", rcb="ret", script=None, conns=None, inject=None, tail=None, settle=35.0, **kw):
